@@ -1,8 +1,8 @@
 (* C04 — a tick patch replays to exactly the state the tick produced.
    Only property theorems live here: each is closed by [exact], pinned by
    [Check ... : statement] and followed by [Print Assumptions]. *)
-From Coq Require Import List NArith Bool.
-From Echo Require Import Base.FinMap Model.Patch Proofs.PatchProofs.
+From Coq Require Import List NArith Bool Sorted.
+From Echo Require Import Base.FinMap Model.Patch Proofs.PatchProofs Proofs.PatchProofs2 Proofs.PatchProofs3.
 Import ListNotations.
 Open Scope N_scope.
 
@@ -40,3 +40,35 @@ Qed.
 Check diff_apply_exact_refuted : exists a b s,
   wfb a = true /\ wfb b = true /\ apply_ops (diff a b) a = Ok s /\ s <> b.
 Print Assumptions diff_apply_exact_refuted.
+
+(* ... and that is the only way to reach a third state: whenever the diff re-establishes the
+   attachment of every re-parented edge ([reparent_ok], the minimal exclusion: it is exactly
+   what the witness above violates), a replay that succeeds yields exactly the after state.
+   Needs structural well-formedness only (canonical maps, stores/instances in step, attachments
+   on existing owners); typed failures are allowed by this clause. *)
+Theorem diff_apply_exact_partial : forall a b s,
+  WFs a -> WFs b -> reparent_ok a b = true -> apply_ops (diff a b) a = Ok s -> s = b.
+Proof. exact diff_apply_exact_struct. Qed.
+Check diff_apply_exact_partial : forall a b s,
+  WFs a -> WFs b -> reparent_ok a b = true -> apply_ops (diff a b) a = Ok s -> s = b.
+Print Assumptions diff_apply_exact_partial.
+
+(* The diff is in canonical order with pairwise distinct sort keys ... *)
+Theorem diff_canonical : forall a b, Struct a -> Struct b ->
+  StronglySorted key_lt (map sort_key (diff a b)).
+Proof. exact diff_strictly_sorted. Qed.
+Check diff_canonical : forall a b, Struct a -> Struct b ->
+  StronglySorted key_lt (map sort_key (diff a b)).
+Print Assumptions diff_canonical.
+
+(* ... so the patch constructor (sort + last-wins dedupe by sort key) is the identity on it. *)
+Theorem patch_constructor_identity : forall a b, Struct a -> Struct b -> patch_new (diff a b) = diff a b.
+Proof. exact patch_new_diff. Qed.
+Check patch_constructor_identity : forall a b, Struct a -> Struct b -> patch_new (diff a b) = diff a b.
+Print Assumptions patch_constructor_identity.
+
+(* Every op keeps the structural invariant, whatever the op list. *)
+Theorem Struct_preserved : forall ops a s, Struct a -> apply_ops ops a = Ok s -> Struct s.
+Proof. exact apply_ops_Struct. Qed.
+Check Struct_preserved : forall ops a s, Struct a -> apply_ops ops a = Ok s -> Struct s.
+Print Assumptions Struct_preserved.
